@@ -26,6 +26,7 @@ type vfNackScript struct {
 		S    uint32 `json:"s"`
 		W    uint16 `json:"w"`
 		Nack bool   `json:"nack"`
+		Fb   string `json:"fb"` // RTCP feedback list of the stream: "" (nack only, if Nack), "plifirst", "nackfirst", "plionly", "other"
 	} `json:"steps"`
 }
 
@@ -172,6 +173,20 @@ func vfRunIcpt(t *testing.T, sc *vfNackScript, out *vfWriter) {
 			b := &bound{info: &interceptor.StreamInfo{SSRC: st.S}}
 			if st.Nack {
 				b.info.RTCPFeedback = []interceptor.RTCPFeedback{{Type: "nack"}}
+			}
+			switch st.Fb { // the stream negotiated NACK iff the list has an entry of type "nack" without parameter
+			case "plifirst":
+				b.info.RTCPFeedback = []interceptor.RTCPFeedback{{Type: "goog-remb"}, {Type: "nack", Parameter: "pli"}, {Type: "nack"}}
+				st.Nack = true
+			case "nackfirst":
+				b.info.RTCPFeedback = []interceptor.RTCPFeedback{{Type: "nack"}, {Type: "nack", Parameter: "pli"}, {Type: "transport-cc"}}
+				st.Nack = true
+			case "plionly":
+				b.info.RTCPFeedback = []interceptor.RTCPFeedback{{Type: "nack", Parameter: "pli"}, {Type: "ccm", Parameter: "fir"}}
+				st.Nack = false
+			case "other":
+				b.info.RTCPFeedback = []interceptor.RTCPFeedback{{Type: "transport-cc"}}
+				st.Nack = false
 			}
 			b.reader = ic.BindRemoteStream(b.info, interceptor.RTPReaderFunc(
 				func(buf []byte, a interceptor.Attributes) (int, interceptor.Attributes, error) {
